@@ -524,6 +524,8 @@ fn run_double_key(cs: &mut Cases, rng: &mut Rng, n: usize) {
             let pc = ts[i].partial_cmp(&ts[j]);
             let c = ts[i].cmp(&ts[j]);
             assert!(pc == Some(c), "partial_cmp disagrees with cmp");
+            // the comparison operators are what `sort` and `BTreeSet::from_iter` use: they must say what `cmp` says
+            assert!((ts[i] < ts[j]) == (c == Ordering::Less) && (ts[i] <= ts[j]) == (c != Ordering::Greater) && (ts[i] > ts[j]) == (c == Ordering::Greater) && (ts[i] >= ts[j]) == (c != Ordering::Less), "partial_cmp disagrees with cmp");
             Obs { eq: ts[i] == ts[j], cmp: c as i8, words: (words_std(&ts[i]), words_std(&ts[j])) }
         })
     });
